@@ -29,7 +29,7 @@ func GMSystem(channel byte, enable bool) []byte {
 	if enable {
 		n.SubID2 = 0x01
 	} else {
-		n.SubID2 = 0x00
+		n.SubID2 = 0x02
 	}
 
 	return n.SysEx()
@@ -50,7 +50,7 @@ GM-compliant mode when desirable.
 0x7F  The SysEx channel. Could be from 0x00 to 0x7F.
       Here we set it to "disregard channel".
 0x09  Sub-ID -- GM System Enable/Disable
-0xNN  Sub-ID2 -- NN=00 for disable, NN=01 for enable
+0xNN  Sub-ID2 -- NN=02 for disable (GM System Off), NN=01 for enable (GM 1 System On)
 0xF7  End of SysEx
 
 It is best to respond as quickly as possible to this message, and to be ready to accept incoming note (and other)
@@ -62,7 +62,7 @@ currently selected patch upon all 16 MIDI channels. The device should also inter
 assume the power-up state described in the General MIDI Specification.
 
 While GM mode is enabled, a device should also ignore Bank Select messages (since GM does not have more than one
-bank of patches). Only when the GM Disable message is received (with Sub-ID2 = 0 to disable GM mode) will a device
+bank of patches). Only when the GM Disable message is received (with Sub-ID2 = 2 to disable GM mode) will a device
 then respond to Bank Select messages (and knock itself out of GM mode).
 
 */
